@@ -4,7 +4,7 @@ from .. import env, histgen, session, wire
 from ..runner import Prop, Stage, Result
 from .c01 import CHATTER, CHATTER_TOKENS, TS_SHAPED
 
-PROFILE = dict(reuse=0.6, long_strings=True, weights=dict(repeat=4, newer=4, delete=14, bind=12, message=50, server_event=8, sync=6, enum=10, title=16, kinds=8, nulls=6, retype=3))
+PROFILE = dict(reuse=0.6, long_strings=True, weights=dict(repeat=4, newer=4, delete=14, bind=12, message=50, server_event=8, sync=6, enum=10, title=16, kinds=8, nulls=6, retype=3, midsession=6))
 
 
 def gen_chatter(d):
@@ -63,7 +63,8 @@ def check_full(case, res, supress):
                 continue
             mm = session.MSG_LINE.match(items[0])
             spec = case['specs'][seg_index(lines, seg, inp)]
-            if not mm or not re.search(r'%s@%d[a-z]+\.%s\(' % (re.escape(spec['iface']), spec['id'], re.escape(spec['name'])), mm.group(3)):
+            # (an object the stream never showed being created reads `unresolved type@id?`)
+            if not mm or not re.search(r'%s@%d(?:[a-z]+|\?)\.%s\(' % (re.escape(spec['iface']), spec['id'], re.escape(spec['name'])), mm.group(3)):
                 res.bad('message-line-not-decoded' + tag, '%r shown as %r' % (ltext, items[0]))
         else:
             if supress:
@@ -355,6 +356,51 @@ class CliPacing(Stage):
         return res
 
 
+class ManyConnections(Stage):
+    """streams in which a great many connections show up (up to 18 300: connection names of four letters) with chatter in between: still
+    one item per line, in order, before the next line is read"""
+    name = 'many-connections'
+
+    def examples(self, tier):
+        return 5 if tier == 'quick' else 14 * 2
+
+    def gen(self, d, tier):
+        return dict(n=d.choice([18300, 18290 + d.int(0, 30), d.int(1001, 1040), d.int(703, 760)]), extra_every=d.choice([7, 97]), chatter_every=d.choice([50, 333]), supress=d.chance(0.3))
+
+    def execute(self, case):
+        from .c04 import many_tags_specs
+        res = Result()
+        res.evals = 0
+        specs = many_tags_specs(case['n'], case['extra_every'])
+        items = []
+        for k, m in enumerate(specs):
+            if k % case['chatter_every'] == 0:
+                items.append(['line', 'progress %d' % k, 'chatter'])
+            items.append(['line', wire.render(m, 'new'), 'msg'])
+        s = session.Session(show_unprocessed=not case['supress'])
+        segs = s.run([it[:2] for it in items])
+        inp = [g for g in segs if g.kind == 'line']
+        if len(inp) != len(items):
+            res.bad('harness:segments', '%d segments for %d lines' % (len(inp), len(items)))
+            return res
+        for seg, it in zip(inp, items):
+            got = notices_stripped(seg.out_lines())
+            res.evals += 1
+            if it[2] == 'msg':
+                if len(got) != 1 or not session.MSG_LINE.match(got[0]):
+                    res.bad('message-line-items!=1:many-connections', 'line %d of %d (%r) produced %r before the next read' % (seg.index, len(items), it[1][:80], got[:2]))
+                    break
+            else:
+                want = [] if case['supress'] else ['       |  ' + it[1]]
+                if got != want:
+                    res.bad('non-message-line-items:many-connections', 'line %d (%r) produced %r' % (seg.index, it[1], got[:2]))
+                    break
+        res.nontrivial = True
+        res.label('connections>=18279' if case['n'] >= 18279 else 'connections>=1001' if case['n'] >= 1001 else 'connections>=703')
+        res.sample = dict(case)
+        return res
+
+
 class C08(Prop):
     id = 'C08'
     rule = ('generated well-formed message streams (both dialects) with non-message lines (chatter without timestamp-shaped token, blank and '
@@ -366,7 +412,7 @@ class C08(Prop):
             'and passed-through line counts vs the stream (non-trivial = >= 2 option words and >= 2 messages).')
     assumptions = ['New/Closed notices and time-gap separator lines are not items (C04, C16)',
                    'chatter contains no timestamp-shaped token, so it denotes no message by an independent definition']
-    stages = [Streams(), CliOptions(), CliPacing()]
+    stages = [Streams(), ManyConnections(), CliOptions(), CliPacing()]
 
 
 PROP = C08()
